@@ -34,6 +34,7 @@ import (
 	"sort"
 	"strings"
 	"sync"
+	"sync/atomic"
 	"time"
 
 	"github.com/brutella/hc/characteristic"
@@ -256,7 +257,9 @@ func buildSubjects() []subject {
 			}
 			if len(ps) <= 3 {
 				out = append(out, subject{Name: "synthetic/" + f + "/" + permName(ps) + "/narrowed-in-place", Kind: "synthetic", Format: f,
-					make: func() *characteristic.Characteristic { return synthHow(f, ps, numeric, false, synthType(fi, pi, 3), true) }})
+					make: func() *characteristic.Characteristic {
+						return synthHow(f, ps, numeric, false, synthType(fi, pi, 3), true)
+					}})
 			}
 			out = append(out, subject{Name: "synthetic/" + f + "/" + permName(ps) + "/getfn", Kind: "synthetic", Format: f, GetFn: true,
 				make: func() *characteristic.Characteristic { return synth(f, ps, numeric, true, synthType(fi, pi, 2)) }})
@@ -430,15 +433,34 @@ func (r *recorder) lastCall() string {
 	return r.last
 }
 
+// panicInCallbacks, while set, makes the recorder's callbacks panic (an application callback that fails): the update that
+// invoked them must leave a characteristic without pr as empty as it found it
+var panicInCallbacks int32
+
+// duringCallback: a characteristic without read permission holds and reveals no value at ANY moment another goroutine
+// (a GET /accessories on another connection) could look, also while the callbacks of a write run
+func duringCallback(cc *characteristic.Characteristic, which string) {
+	run.Count("callbacks_in_which_the_stored_value_was_inspected", 1)
+	if !declared(cc).pr && cc.Value != nil {
+		violate("callback:read:no-pr:value-stored-during-callback", fmt.Sprintf("while %s of a characteristic with perms %v runs, the characteristic holds Value %s: a read from another goroutine at that moment (GET /accessories on another connection) reveals it", which, cc.Perms, show(cc.Value)),
+			"characteristic type "+cc.Type, map[string]interface{}{"perms": cc.Perms, "format": cc.Format})
+	}
+	if atomic.LoadInt32(&panicInCallbacks) == 1 {
+		panic("verif: the application's callback fails")
+	}
+}
+
 func instrument(c *characteristic.Characteristic) *recorder {
 	r := &recorder{}
-	c.OnValueUpdate(func(_ *characteristic.Characteristic, nv, ov interface{}) {
+	c.OnValueUpdate(func(cc *characteristic.Characteristic, nv, ov interface{}) {
+		duringCallback(cc, "OnValueUpdate")
 		r.mu.Lock()
 		r.local++
 		r.last = "OnValueUpdate(new=" + show(nv) + ", old=" + show(ov) + ")"
 		r.mu.Unlock()
 	})
-	c.OnValueUpdateFromConn(func(_ net.Conn, _ *characteristic.Characteristic, nv, ov interface{}) {
+	c.OnValueUpdateFromConn(func(_ net.Conn, cc *characteristic.Characteristic, nv, ov interface{}) {
+		duringCallback(cc, "OnValueUpdateFromConn")
 		r.mu.Lock()
 		r.remote++
 		r.last = "OnValueUpdateFromConn(new=" + show(nv) + ", old=" + show(ov) + ")"
